@@ -25,6 +25,8 @@ global size_of usize == 8;
 //@include prelude/sem_spec.rs
 //@include prelude/elim_spec.rs
 //@include prelude/sem_elim_spec.rs
+//@include prelude/regions_spec.rs
+//@include prelude/elim_region_spec.rs
 
 impl DfsNodeData {
 //@assumed units/pwl_regions.rs | extract
@@ -67,7 +69,9 @@ impl<A: Float> PolytopeG<A> {
     #[verifier::external_body]
     pub fn intersection_n(dim: usize, polys: &[Polytope]) -> (r: Polytope)
         requires preds_ok(polys@, dim)
-        ensures r.ok(), r.mat.ncols() == dim
+        ensures r.ok(), r.mat.ncols() == dim,
+            // ASSUMED (rows are concatenated; bounded: bc poly): the intersection of the parts
+            forall|x: V| x.len() == dim ==> (#[trigger] r.sat(x) <==> forall|k: int| 0 <= k < polys@.len() ==> (#[trigger] polys@[k]).sat(x)),
     { unimplemented!() }
 }
 
@@ -95,10 +99,13 @@ impl PolyhedraGen {
     ensures r@ == self.predicates@
 //@end
 
-// structural contract (the meaning of the half-spaces is proved in unit pwl_regions for an unchanged tree)
+// `next` on a tree that is being mutated between the calls: besides the structural step, the bookkeeping invariant of unit pwl_regions (gen_inv: one
+// half-space per edge of the path to the last returned node) is kept WITH RESPECT TO THE ORIGINAL ARENA a0, provided the node about to be popped
+// still has its original child slots, parent pointer and parent slot (top_agrees)
 //@fn src/pwl/iter.rs | impl PolyhedraGen | next
+//@sigsub <const K: usize> =>
+//@sigsub tree: &Tree<AffContent, K>, => tree: &Tree<AffContent, 2>, Ghost(in_dim): Ghost<usize>, Ghost(a0): Ghost<AArena<2>>, Ghost(path): Ghost<Seq<usize>>,
 //@sigsub Option<(DfsNodeData, &Vec<Polytope>)> => Option<DfsNodeData>
-//@sigsub tree: &Tree<AffContent, K>, => tree: &Tree<AffContent, K>, Ghost(in_dim): Ghost<usize>,
 //@bodysub Some((data, &self.predicates)) => Some(data)
 //@bodysub -1.0, => flit(-1, 1),
 //@bodysub 1.0, => flit(1, 1),
@@ -106,19 +113,59 @@ impl PolyhedraGen {
 //@bodysub &aff.bias * factor => Mul::mul(&aff.bias, factor)
 //@bodysub tree.node_value(edg.source_idx).ok()?.aff => tree.tree_node(edg.source_idx).ok()?.value.aff
 //@spec
-    requires tree.wf(), K == 2, stack_ok(tree.arena@, old(self).iter.stack@), preds_ok(old(self).predicates@, in_dim), old(self).last_depth < usize::MAX,
+    requires tree.wf(), stack_ok(tree.arena@, old(self).iter.stack@), preds_ok(old(self).predicates@, in_dim), old(self).last_depth < usize::MAX,
         forall|i: usize| tree.arena@.dom().contains(i) ==> (#[trigger] tree.arena@[i]).value.aff.ok() && tree.arena@[i].value.aff.mat.ncols() == in_dim,
+        kids_ok(a0), parents_ok(a0), gen_inv(a0, *old(self), path), top_agrees(tree.arena@, a0, old(self).iter.stack@),
     ensures
         dfs_step(tree.arena@, old(self).iter.stack@, final(self).iter.stack@, final(self).iter.last_push, r),
         preds_ok(final(self).predicates@, in_dim), final(self).last_depth < usize::MAX,
         // a node below the root comes with at least the half-space of its incoming edge
         r matches Some(it) ==> (tree.arena@[it.index].parent is Some ==> final(self).predicates@.len() >= 1),
+        r matches Some(it) ==> gen_inv(a0, *final(self), next_path(path, it)) && it.depth <= path.len() && (it.depth == 0 ==> a0[it.index].parent is None),
+//@hint start
+        let ghost g0 = *self;
+        let ghost s_old = self.iter.stack@;
+        let ghost preds0 = self.predicates@;
+        let ghost ld0 = self.last_depth;
+        proof { lemma_gen_facts(a0, g0, path); }
+//@hint after let data = self.iter.next(tree)?;
+        proof {
+            assert(s_old[s_old.len() - 1] == data);
+            assert(tree.arena@[data.index].children == a0[data.index].children);
+            assert(dfs_step(a0, s_old, self.iter.stack@, self.iter.last_push, Some(data)));
+            lemma_anc_step(a0, s_old, self.iter.stack@, self.iter.last_push, data, path);
+        }
 //@loop 1
-                invariant self.iter == old_iter_after, preds_ok(self.predicates@, in_dim),
+                invariant
+                    self.predicates@ == preds0.take(if __k <= preds0.len() { preds0.len() - __k } else { 0 }),
+                    self.last_depth == ld0, self.iter == old_iter_after,
 //@hint before if depth <= self.last_depth {
         let ghost old_iter_after = self.iter;
+//@hint after self.last_depth = depth;
+        let ghost preds1 = self.predicates@;
+        proof {
+            assert(preds1.len() == (if depth >= 1 { depth - 1 } else { 0 }));
+            assert(preds1 =~= preds0.take(preds1.len() as int));
+            assert(preds_ok(preds1, in_dim));
+        }
 //@hint after self.predicates.push(poly);
-            proof { broadcast use axiom_array2_shape; }
+            proof {
+                broadcast use axiom_array2_shape;
+                assert(edge_poly(*aff, edg.label, poly));
+                assert(self.predicates@.take(depth - 1) =~= preds0.take(depth - 1));
+                assert(depth >= 1);
+                assert(edg.source_idx == path[depth - 1]);
+                assert(tree.arena@[data.index].parent == Some(edg.source_idx));
+                assert(tree.arena@[tree.arena@[data.index].parent.unwrap()].children[edg.label as int] == Some(data.index));
+                assert(a0[path[depth - 1]].children[edg.label as int] == Some(data.index));
+                assert(a0.dom().contains(path[depth - 1]));
+                assert(*aff == a0[path[depth - 1]].value.aff);
+                lemma_gen_step(a0, g0, *self, path, data, edg.label);
+            }
+//@hint end
+        proof {
+            if depth == 0 { lemma_gen_step(a0, g0, *self, path, data, 0); }
+        }
 //@end
 }
 
@@ -148,16 +195,20 @@ pub fn phase_one(&self, parent_idx: TreeIndex, poly: &Polytope, counter: &mut Pe
         r.predicates@.len() == 0, r.last_depth == 0,
 //@end
 
+}
+
+// rule G1: verified for binary trees, K = 2 (PolyhedraGen::next panics on labels >= 2, so the function is only usable for K = 2)
+impl AffTree<2> {
 //@fn src/pwl/impl_infeasible_elim.rs | impl<const K: usize> AffTree<K> | infeasible_elimination
-//@bodysub while let Some((data, polyhedra)) = iter.next(&self.tree) { => while let Some(data) = iter.next(&self.tree, Ghost(self.in_dim)) { let polyhedra = iter.current_polytope();
+//@bodysub while let Some((data, polyhedra)) = iter.next(&self.tree) { => while let Some(data) = iter.next(&self.tree, Ghost(self.in_dim), Ghost(a0), Ghost(path)) { let polyhedra = iter.current_polytope();
 //@bodysub counter.nodes_checked += 1; =>
 //@bodysub counter.cached_state += 1; =>
 //@bodysub counter.skipped_nodes += self.tree.num_nodes(node_idx) - 1; => let _skipped = self.tree.num_nodes(node_idx) - 1;
 //@bodysub let node_value = self.tree.node_value(node_idx).unwrap(); => let node_value = &self.tree.tree_node(node_idx).unwrap().value;
 //@bodysub for (label, node) in to_remove { => let mut __j: usize = 0; while __j < to_remove.len() { let (label, node) = to_remove[__j]; __j += 1;
 //@spec
-    requires old(self).tree.wf(), K == 2, old(self).tree.root is Some, old(self).a().dom().len() <= i32::MAX,
-        vals_ok(old(self).a(), old(self).in_dim), dec_one_row(old(self).a()),
+    requires old(self).tree.wf(), old(self).tree.root is Some, old(self).a().dom().len() <= i32::MAX,
+        vals_ok(old(self).a(), old(self).in_dim), aff_shape_ok(old(self).a(), old(self).in_dim),
     ensures
         // reaching this point at all: none of the unwraps / expects / asserts of the traversal can fire, whatever the LP layer answers
         final(self).tree.wf(), final(self).tree.root == old(self).tree.root, final(self).in_dim == old(self).in_dim,
@@ -168,6 +219,9 @@ pub fn phase_one(&self, parent_idx: TreeIndex, poly: &Polytope, counter: &mut Pe
         // if it was cached infeasible at entry or the LP layer answered Infeasible for the polytope recorded for it - every other input keeps its value
         // and its undefinedness.  (That this polytope is the node's path region, and that the LP answer is right, is outside this contract.)
         exists|b: Set<usize>, vp: Map<usize, Polytope>| #![trigger blame_ok(old(self).a(), b, vp)] blame_ok(old(self).a(), b, vp)
+            // ... and that polytope is satisfied by every input whose evaluation in the original tree passes the node (the half-spaces of its path)
+            && (forall|c: usize, h0: Map<usize, nat>| #![trigger vp[c], ranked_down(old(self).a(), h0)] vp.dom().contains(c) && ranked_down(old(self).a(), h0)
+                    ==> region_covers(old(self).a(), h0, old(self).tree.root.unwrap(), c, vp[c], old(self).in_dim))
             && forall|h0: Map<usize, nat>, h1: Map<usize, nat>, x: V| #![trigger tree_fn(old(self).a(), h0, old(self).tree.root.unwrap(), x), tree_fn(final(self).a(), h1, old(self).tree.root.unwrap(), x)]
                 ranked_down(old(self).a(), h0) && ranked_down(final(self).a(), h1) && !blamed_path(old(self).a(), h0, old(self).tree.root.unwrap(), b, x)
                     ==> tree_fn(final(self).a(), h1, old(self).tree.root.unwrap(), x) == tree_fn(old(self).a(), h0, old(self).tree.root.unwrap(), x),
@@ -180,10 +234,19 @@ pub fn phase_one(&self, parent_idx: TreeIndex, poly: &Polytope, counter: &mut Pe
         let ghost hs = choose|h: Map<usize, nat>| ranked_down(a0, h);
         let ghost mut b: Set<usize> = a0.dom().filter(|c: usize| a0[c].value.state is Infeasible);
         let ghost mut vp: Map<usize, Polytope> = Map::<usize, Polytope>::empty();
-        proof { lemma_el_init(self.a(), root); lemma_sem_init(a0, hs, root); }
+        let ghost mut path: Seq<usize> = Seq::<usize>::empty();
+        proof {
+            lemma_el_init(self.a(), root); lemma_sem_init(a0, hs, root);
+            lemma_gen_init(a0, iter, root);
+            lemma_reg_init(a0, root);
+            lemma_top_agrees(a0, self.a(), root, g_stack, vis, root, d0, self.in_dim);
+            lemma_dec_from_shape(a0, self.in_dim);
+        }
 //@loop 1
+            invariant_except_break
+                gen_inv(a0, iter, path),
             invariant
-                K == 2, self.in_dim == old(self).in_dim, self.tree.root == Some(root), old(self).tree.root == Some(root),
+                self.in_dim == old(self).in_dim, self.tree.root == Some(root), old(self).tree.root == Some(root),
                 a0 == old(self).a(), d0 == a0.dom(), d0.len() <= i32::MAX,
                 g_stack == iter.iter.stack@,
                 el_inv(self.a(), root, g_stack, vis, root, d0),
@@ -191,8 +254,12 @@ pub fn phase_one(&self, parent_idx: TreeIndex, poly: &Polytope, counter: &mut Pe
                 // (consequences of the two lines above, needed where the loop condition calls `next`)
                 self.tree.wf(), stack_ok(self.a(), g_stack), vals_ok(self.a(), self.in_dim),
                 preds_ok(iter.predicates@, self.in_dim), iter.last_depth < usize::MAX,
-                forall|j: int| 0 <= j < to_remove@.len() ==> (#[trigger] to_remove@[j]).0 < K,
+                forall|j: int| 0 <= j < to_remove@.len() ==> (#[trigger] to_remove@[j]).0 < 2,
                 ranked_down(a0, hs), dec_one_row(a0), sem_inv(a0, hs, self.a(), root, b), blame_ok(a0, b, vp), tr_ok(self.a(), to_remove@, vis),
+                // the reported half-spaces are those of the path in the ORIGINAL tree
+                wf_at(a0, Some(root)), aff_shape_ok(a0, self.in_dim), kids_ok(a0), parents_ok(a0), reg_inv(a0, self.a(), g_stack, vis), top_agrees(self.a(), a0, g_stack),
+                path.len() > 0 ==> path[0] == root,
+                regions_ok(a0, hs, root, vp, self.in_dim),
             decreases d0.len() - vis.len()
 //@hint loop 1 start
             let ghost s0 = g_stack;
@@ -205,12 +272,21 @@ pub fn phase_one(&self, parent_idx: TreeIndex, poly: &Polytope, counter: &mut Pe
                 lemma_el_next(self.a(), root, s0, s1, lp1, data, vis0, d0);
                 vis = vis0.insert(data.index);
                 lemma_tr_mono(self.a(), tr0, vis0, vis);
+                assert(a0.dom().contains(data.index));
+                lemma_reg_next(a0, self.a(), root, s0, s1, lp1, data, vis0, d0);
+                let p1 = next_path(path, data);
+                assert(p1.len() > 0 && p1[0] == root && p1.last() == data.index) by {
+                    if data.depth == 0 { assert(a0[data.index].parent is None); } else { assert(p1[0] == path[0]); }
+                }
+                path = p1;
             }
+            let ghost g_next = iter;
 //@hint before#1 continue;
                 proof {
                     lemma_el_settle(self.a(), root, s1, vis, data.index, d0);
                     g_stack = s1;
                     lemma_el_stack_ok(self.a(), root, g_stack, vis, root, d0);
+                    lemma_top_agrees(a0, self.a(), root, g_stack, vis, root, d0, self.in_dim);
                 }
 //@hint after#1 iter.skip_subtree();
                     proof {
@@ -219,16 +295,25 @@ pub fn phase_one(&self, parent_idx: TreeIndex, poly: &Polytope, counter: &mut Pe
                         lemma_el_settle(self.a(), root, s2, vis, data.index, d0);
                         g_stack = s2;
                         lemma_el_stack_ok(self.a(), root, g_stack, vis, root, d0);
+                        lemma_reg_skip(a0, self.a(), s1, lp1, s2, iter.iter.last_push, vis);
+                        lemma_gen_skip(a0, g_next, iter, path);
+                        lemma_top_agrees(a0, self.a(), root, g_stack, vis, root, d0, self.in_dim);
                     }
 //@hint before#3 continue;
                     proof {
                         lemma_el_settle(self.a(), root, s1, vis, data.index, d0);
                         g_stack = s1;
                         lemma_el_stack_ok(self.a(), root, g_stack, vis, root, d0);
+                        lemma_top_agrees(a0, self.a(), root, g_stack, vis, root, d0, self.in_dim);
                     }
+//@hint after let poly = Polytope::intersection_n(self.in_dim(), polyhedra.as_slice());
+            proof {
+                assert(path.last() == node_idx);
+                lemma_region_covers(a0, hs, root, iter, path, poly, self.in_dim);
+            }
 //@hint after to_remove.push((label, parent_idx));
                 proof {
-                    assert forall|j: int| 0 <= j < to_remove@.len() implies (#[trigger] to_remove@[j]).0 < K by {
+                    assert forall|j: int| 0 <= j < to_remove@.len() implies (#[trigger] to_remove@[j]).0 < 2 by {
                         if j < to_remove@.len() - 1 { assert(to_remove@[j] == to_remove@.drop_last()[j]); }
                     }
                 }
@@ -236,6 +321,8 @@ pub fn phase_one(&self, parent_idx: TreeIndex, poly: &Polytope, counter: &mut Pe
                 proof {
                     s_cur = iter.iter.stack@;
                     lemma_el_skip(self.a(), root, s0, s1, lp1, data, s_cur, iter.iter.last_push, vis0, d0);
+                    lemma_reg_skip(a0, self.a(), s1, lp1, s_cur, iter.iter.last_push, vis);
+                    lemma_gen_skip(a0, g_next, iter, path);
                 }
 //@hint before let node_value = self.tree.node_value_mut(node_idx).unwrap();
             let ghost a_b = self.a();
@@ -254,6 +341,7 @@ pub fn phase_one(&self, parent_idx: TreeIndex, poly: &Polytope, counter: &mut Pe
                     b = b.insert(node_idx);
                     vp = vp.insert(node_idx, poly);
                 }
+                lemma_reg_write(a0, a_b, self.a(), s_cur, vis, node_idx);
                 lemma_tr_write(a_b, self.a(), tr0, vis0, node_idx, skipped, label, parent_idx);
                 assert(to_remove@ =~= (if skipped { tr0.push((label, parent_idx)) } else { tr0 }));
             }
@@ -268,11 +356,14 @@ pub fn phase_one(&self, parent_idx: TreeIndex, poly: &Polytope, counter: &mut Pe
                     lemma_tr_forward(a_f, self.a(), to_remove@, vis, root, parent_idx);
                     lemma_el_forward(a_f, self.a(), root, s_cur, vis, d0, parent_idx);
                     lemma_kept_pruned(a0, a_f, self.a(), self.in_dim, parent_idx, root);
+                    lemma_fwd_slots(a_f, self.a(), root, parent_idx);
+                    lemma_reg_forward(a0, a_f, self.a(), root, s_cur, vis, d0, parent_idx);
                 }
 //@hint loop 1 end
             proof {
                 g_stack = s_cur;
                 lemma_el_stack_ok(self.a(), root, g_stack, vis, root, d0);
+                lemma_top_agrees(a0, self.a(), root, g_stack, vis, root, d0, self.in_dim);
             }
 //@hint loop 1 after
         proof {
@@ -280,14 +371,15 @@ pub fn phase_one(&self, parent_idx: TreeIndex, poly: &Polytope, counter: &mut Pe
         }
 //@loop 2 contract
             invariant
-                K == 2, self.in_dim == old(self).in_dim, self.tree.root == Some(root), self.tree.wf(),
+                self.in_dim == old(self).in_dim, self.tree.root == Some(root), self.tree.wf(),
                 kept_ok(a0, self.a(), self.in_dim), a0 == old(self).a(), a0.dom().len() <= i32::MAX,
                 0 <= __j <= to_remove@.len(),
-                forall|j: int| 0 <= j < to_remove@.len() ==> (#[trigger] to_remove@[j]).0 < K,
+                forall|j: int| 0 <= j < to_remove@.len() ==> (#[trigger] to_remove@[j]).0 < 2,
                 ranked_down(a0, hs), dec_one_row(a0), sem_inv(a0, hs, self.a(), root, b), blame_ok(a0, b, vp), tr_ok(self.a(), to_remove@, vis),
+                regions_ok(a0, hs, root, vp, self.in_dim), wf_at(a0, Some(root)),
             decreases to_remove@.len() - __j
 //@hint loop 2 after
-        proof { lemma_sem_final(a0, hs, self.a(), root, b); }
+        proof { lemma_sem_final(a0, hs, self.a(), root, b); lemma_regions_final(a0, hs, root, vp, self.in_dim); }
 //@hint before let _ = self.tree.try_remove_child(node, label);
                 let ghost a_r = self.a();
                 proof { vstd::set_lib::lemma_len_subset(a_r.dom(), a0.dom()); }
